@@ -197,22 +197,33 @@ class DuplicateNamer(Monitor):
 
 def replenish_refused(world, crash):
     """An engine-chosen burn or deal was refused for lack of cards although deck + burns + muck + discards hold
-    enough cards that are not in play: the deck was not replenished when it ran out."""
-    if 'not enough cards' not in str(crash.exc) or world.in_call is None or crash.log_grew:
-        return None         # (log grew: the call itself went through and a step of the following automation cascade ran dry)
-    name, args = world.in_call
+    enough cards that are not in play: the deck was not replenished when it ran out.  The refused operation is the
+    innermost burn/deal frame of the traceback (it may be a step of the automation cascade of the call that was made)."""
+    if 'not enough cards' not in str(crash.exc):
+        return None
     st = world.state
-    if name == 'burn_card' and not args:
+    frame = None
+    tb = crash.exc.__traceback__
+    while tb is not None:
+        f = tb.tb_frame
+        if f.f_code.co_name in ('burn_card', 'deal_hole', 'deal_board') and '/pokerkit/' in f.f_code.co_filename:
+            frame = f
+        tb = tb.tb_next
+    if frame is None:
+        return None
+    name = frame.f_code.co_name
+    arg = frame.f_locals.get('card' if name == 'burn_card' else 'cards')
+    if name == 'burn_card' and arg is None:
         need = 1
-    elif name == 'deal_hole' and (not args or isinstance(args[0], int)):
-        need = args[0] if args else 1
-    elif name == 'deal_board' and (not args or isinstance(args[0], int)):
-        need = args[0] if args else (st.board_dealing_count or 1)
+    elif name == 'deal_hole' and (arg is None or isinstance(arg, int)):
+        need = arg or 1
+    elif name == 'deal_board' and (arg is None or isinstance(arg, int)):
+        need = arg or (st.board_dealing_count or 1)
     else:
         return None
     have = len(st.deck_cards) + len(st.burn_cards) + len(st.mucked_cards) + sum(len(d) for d in st.discarded_cards)
     if have >= need:
-        return (f'{name}{tuple(args)} was refused ("{crash.exc}") although {have} cards are not in play: deck '
+        return (f'{name}({"" if arg is None else arg}) was refused ("{crash.exc}") although {have} cards are not in play: deck '
                 f'{len(st.deck_cards)}, burns {len(st.burn_cards)}, muck {len(st.mucked_cards)}, discards '
                 f'{[len(d) for d in st.discarded_cards]}; {need} needed')
     return None
